@@ -4,6 +4,9 @@ HARNESSES = [
     dict(name="ringseq", src=["ringseq.c"], variant="asan", deadline={"quick": 90, "thorough": 600}),
     # concurrent half: acquirer thread x releaser thread, every interleaving of the atomic loads/stores of head and tail
     dict(name="ringmt", src=["ringmt.c"], variant="sched", wrap=True, deadline={"quick": 150, "thorough": 1500}),
+    # free-running ThreadSanitizer twin of the scenario bodies (DESIGN 4.5): no wrapping, OS scheduler, decides nothing;
+    # discharges VSX's proviso that there is no unsynchronised access between schedule points
+    dict(name="ringmt-tsan", src=["ringmt.c"], variant="tsan", cflags=["-DVSX_FREE"], tiers=["thorough"], deadline={"thorough": 600}),
 ]
 ASSUMPTIONS = [
     "concurrent half (ringmt): one acquirer and one releaser thread, programs of <=3 (quick: 18 chosen, thorough: all over a 6-symbol alphabet for ring sizes 4 and 6, plus double-wrap programs of length 4); preemption bound 2 (quick) / 3 (thorough); interleavings are sequentially consistent - acquire/release/relaxed orderings are not modelled",
